@@ -1,11 +1,22 @@
 package vsched
+
 // GoN(f, args...) is `go f(args...)`: callee and arguments are evaluated by the caller, the call runs as a new managed thread.
-func Go0(f func()) { Go(f) }
-func Go1[A0 any](f func(A0), a0 A0) { Go(func() { f(a0) }) }
-func Go2[A0, A1 any](f func(A0, A1), a0 A0, a1 A1) { Go(func() { f(a0, a1) }) }
+func Go0(f func())                                                { Go(f) }
+func Go1[A0 any](f func(A0), a0 A0)                               { Go(func() { f(a0) }) }
+func Go2[A0, A1 any](f func(A0, A1), a0 A0, a1 A1)                { Go(func() { f(a0, a1) }) }
 func Go3[A0, A1, A2 any](f func(A0, A1, A2), a0 A0, a1 A1, a2 A2) { Go(func() { f(a0, a1, a2) }) }
-func Go4[A0, A1, A2, A3 any](f func(A0, A1, A2, A3), a0 A0, a1 A1, a2 A2, a3 A3) { Go(func() { f(a0, a1, a2, a3) }) }
-func Go5[A0, A1, A2, A3, A4 any](f func(A0, A1, A2, A3, A4), a0 A0, a1 A1, a2 A2, a3 A3, a4 A4) { Go(func() { f(a0, a1, a2, a3, a4) }) }
-func Go6[A0, A1, A2, A3, A4, A5 any](f func(A0, A1, A2, A3, A4, A5), a0 A0, a1 A1, a2 A2, a3 A3, a4 A4, a5 A5) { Go(func() { f(a0, a1, a2, a3, a4, a5) }) }
-func Go7[A0, A1, A2, A3, A4, A5, A6 any](f func(A0, A1, A2, A3, A4, A5, A6), a0 A0, a1 A1, a2 A2, a3 A3, a4 A4, a5 A5, a6 A6) { Go(func() { f(a0, a1, a2, a3, a4, a5, a6) }) }
-func Go8[A0, A1, A2, A3, A4, A5, A6, A7 any](f func(A0, A1, A2, A3, A4, A5, A6, A7), a0 A0, a1 A1, a2 A2, a3 A3, a4 A4, a5 A5, a6 A6, a7 A7) { Go(func() { f(a0, a1, a2, a3, a4, a5, a6, a7) }) }
+func Go4[A0, A1, A2, A3 any](f func(A0, A1, A2, A3), a0 A0, a1 A1, a2 A2, a3 A3) {
+	Go(func() { f(a0, a1, a2, a3) })
+}
+func Go5[A0, A1, A2, A3, A4 any](f func(A0, A1, A2, A3, A4), a0 A0, a1 A1, a2 A2, a3 A3, a4 A4) {
+	Go(func() { f(a0, a1, a2, a3, a4) })
+}
+func Go6[A0, A1, A2, A3, A4, A5 any](f func(A0, A1, A2, A3, A4, A5), a0 A0, a1 A1, a2 A2, a3 A3, a4 A4, a5 A5) {
+	Go(func() { f(a0, a1, a2, a3, a4, a5) })
+}
+func Go7[A0, A1, A2, A3, A4, A5, A6 any](f func(A0, A1, A2, A3, A4, A5, A6), a0 A0, a1 A1, a2 A2, a3 A3, a4 A4, a5 A5, a6 A6) {
+	Go(func() { f(a0, a1, a2, a3, a4, a5, a6) })
+}
+func Go8[A0, A1, A2, A3, A4, A5, A6, A7 any](f func(A0, A1, A2, A3, A4, A5, A6, A7), a0 A0, a1 A1, a2 A2, a3 A3, a4 A4, a5 A5, a6 A6, a7 A7) {
+	Go(func() { f(a0, a1, a2, a3, a4, a5, a6, a7) })
+}
